@@ -40,33 +40,37 @@ def parseEvents : Nat → List String → Except String (List (Ev BigF))
       return Ev.step v :: es
   | _, t :: _ => .error s!"bad-event:{t}"
 
-def parseOpt : Nat → List String → Except String (List (OptObs BigF))
-  | 0, _ => .error "fuel"
-  | _, [] => .ok []
-  | fuel+1, a :: b :: r :: rest => do
-      let la ← num a
-      let lo ← num b
-      let rc ← int r
-      let es ← parseOpt fuel rest
-      return ⟨la, lo, if rc < 0 then none else some rc.toNat⟩ :: es
-  | _, _ => .error "arity"
-
 /-- numeric ReduceToBason trace; per event `code nodec below` (`code 2 2` for a reset) -/
-def rtbNumTrace (c : Cfg) (d tol : BigF) : RtbSt BigF → List (Ev BigF) → List Nat
-  | _, [] => []
-  | s, e :: es =>
+def rtbNumTrace (c : Cfg) (d tol : BigF) : RtbSt BigF → List (Ev BigF) → Except String (List Nat)
+  | _, [] => .ok []
+  | s, e :: es => do
+    match e, s.last with
+    | .step loss, some l =>
+      if l.length != loss.length then throw "shape: the flat model needs a constant batch size between resets"
+    | _, _ => pure ()
     let s' := rtbEv c d tol s e
     let bits := match e with
       | .step loss => let o := rtbObs d tol s.last loss; [bit o.nodec, bit o.below]
       | .reset => [2, 2]
-    stCode s'.st :: bits ++ rtbNumTrace c d tol s' es
+    return stCode s'.st :: bits ++ (← rtbNumTrace c d tol s' es)
 
-def sopNumTrace (c : Cfg) (d : BigF) : St → List (OptObs BigF) → List Nat
-  | _, [] => []
-  | s, o :: os =>
-    let ob := sopObs d o
-    let s' := sopStepNum c d s o
-    stCode s' :: bit ob.nodec :: bit ob.rej :: sopNumTrace c d s' os
+/-- readings `(last loss rejectCount)`; the token `none` is a `step()` call while `optimizer.loss is None`
+(the documented assert fires): output `code 3 3` with the unchanged state -/
+def sopNumTraceC (c : Cfg) (d : BigF) : Nat → St → List String → Except String (List Nat)
+  | 0, _, _ => .error "fuel"
+  | _, _, [] => .ok []
+  | f+1, s, "none" :: rest => do
+      let s' := sopStepOrKeep c d s none
+      return stCode s' :: 3 :: 3 :: (← sopNumTraceC c d f s' rest)
+  | f+1, s, a :: b :: r :: rest => do
+      let la ← num a
+      let lo ← num b
+      let rc ← int r
+      let o : OptObs BigF := ⟨la, lo, if rc < 0 then none else some rc.toNat⟩
+      let ob := sopObs d o
+      let s' := sopStepOrKeep c d s (some o)
+      return stCode s' :: bit ob.nodec :: bit ob.rej :: (← sopNumTraceC c d f s' rest)
+  | _, _, _ => .error "arity"
 
 def stepsGo (f : St → Obs → St) : List Nat → List Nat
   | s :: o :: r => stCode (f (stOfCode s) (obsOfCode o)) :: stepsGo f r
@@ -128,8 +132,9 @@ def sopTraceCodesX (c : Cfg) (d : XF BigF) : St → List String → Except Strin
       let la ← xf a
       let lo ← xf b
       let rc ← int r
-      let o := sopObsX d la lo (if rc < 0 then none else some rc.toNat)
-      let s' := sopStep c s o
+      let rcO := if rc < 0 then none else some rc.toNat
+      let o := sopObsX d la lo rcO
+      let s' := sopStepX c d s la lo rcO
       return stCode s' :: bit o.nodec :: bit o.rej :: (← sopTraceCodesX c d s' rest)
   | _, _ => .error "arity"
 
@@ -203,7 +208,7 @@ def opsC20 : List (String × Handler) := [
         let d ← num d
         let tol ← num tol
         let evs ← parseEvents (rest.length + 1) rest
-        return fmtNats (rtbNumTrace c d tol RtbSt.init evs)
+        return fmtNats (← rtbNumTrace c d tol RtbSt.init evs)
       | _ => throw "arity"),
   -- c20.rtbx maxSteps patience d tol (S rank d1..dr n v1..vn | R)*   values: m:e | nan | inf | -inf | -0
   ("c20.rtbx", fun ts => do
@@ -229,6 +234,9 @@ def opsC20 : List (String × Handler) := [
         | [st, pt, d, tol] => do return some ⟨← int st, ← optInt pt, ← optNum d, ← optNum tol⟩
         | _ => .error "arity"
       match ts with
+      | ["sop", st, pt, d] =>
+        let r := sopOfArgs (← int st) (← optInt pt) (← optNum d)
+        return s!"{r.1.maxSteps} {r.1.patience} {BigF.toWire r.2} 0:0"
       | kind :: rest =>
         let a ← mk rest
         let r ← match kind, a with
@@ -259,14 +267,31 @@ def opsC20 : List (String × Handler) := [
         if r.1 > ls.length then throw "short"
         return fmtNats [r.1, r.2.1, stCode r.2.2.st]
       | _ => throw "arity"),
+  -- c20.sched (N i | S i maxSteps patience obsCode | C dst src | L dst src)*
+  --   schedulers in a heap with their continual() wrappers; after every op: continual() of objects 0..3 (2 = not created)
+  ("c20.sched", fun ts => do
+      let rec go : Nat → Heap → List Nat → List String → Except String (List Nat)
+        | 0, _, _, _ => .error "fuel"
+        | _, _, _, [] => .ok []
+        | f+1, h, live, toks => do
+          let (op, rest) ← match toks with
+            | "N" :: i :: r => pure (HeapOp.new (← nat i), r)
+            | "S" :: i :: ms :: pt :: o :: r => pure (HeapOp.step (← nat i) ⟨← int ms, ← int pt⟩ (obsOfCode (← nat o)), r)
+            | "C" :: a :: b :: r => pure (HeapOp.copy (← nat a) (← nat b), r)
+            | "L" :: a :: b :: r => pure (HeapOp.load (← nat a) (← nat b), r)
+            | _ => throw "bad-op"
+          let h' := h.apply op
+          let live' := match op with | .new i => i :: live | .copy d _ => d :: live | _ => live
+          let out := (List.range 4).map fun i => if live'.contains i then bit (h'.continual i) else 2
+          return out ++ (← go f h' live' rest)
+      return fmtNats (← go (ts.length + 1) ⟨fun _ => St.init, fun i => i⟩ [] ts)),
   -- c20.sop.num maxSteps patience d (last loss rejectCount|-1)*  -> per step: stateCode nodec rej
   ("c20.sop.num", fun ts => do
       match ts with
       | ms :: pt :: d :: rest =>
         let c : Cfg := ⟨← int ms, ← int pt⟩
         let d ← num d
-        let os ← parseOpt (rest.length + 1) rest
-        return fmtNats (sopNumTrace c d St.init os)
+        return fmtNats (← sopNumTraceC c d (rest.length + 1) St.init rest)
       | _ => throw "arity")
 ]
 
